@@ -454,6 +454,7 @@ func genC07(g *G) {
 		g.emit("rel", c07loopTok(tri), "F")
 		g.emit("rel", c07loopTok(tri), c07loopTok(tri))
 	}
+	g.c07towerEnumeration()
 	for g.count < g.n {
 		kind := r.Intn(100)
 		switch {
@@ -461,6 +462,8 @@ func genC07(g *G) {
 			g.c07genNest()
 		case kind < 9:
 			g.c07genPrel()
+		case kind < 17:
+			g.c07genTowerRandom()
 		case kind < 10:
 			g.emit("c07ortho", c07pt(g.c07center()))
 		default:
@@ -762,9 +765,15 @@ func c07perms(n int, f func([]int)) {
 func (g *G) c07genNest() {
 	r := g.rng
 	var fam [][]s2.Point
-	switch r.Intn(4) {
+	switch r.Intn(5) {
 	case 0: // a chain nested up to depth 5 plus siblings
 		fam = g.c07family(4+r.Intn(8), 5, false)
+	case 4: // tower: concentric spine up to depth 5, siblings with children in the rings, or loops sharing vertices with their parent
+		t := g.c07mkTower(c07mkFrame(g.c07center()), (8+27*r.Float())*c07deg, 2+r.Intn(5), r.Bool())
+		if r.Bool() {
+			g.c07addInscribed(t)
+		}
+		fam = t.all()
 	case 1: // cells: a cell, some of its descendants at several levels (sharing corners only if diagonal)
 		level := 2 + r.Intn(10)
 		face := r.Intn(6)
@@ -881,6 +890,241 @@ func (g *G) c07genPrel() {
 		Q = g.c07family(1+r.Intn(4), 2, false)
 	}
 	g.emit("prel", g.c07polyTok(P), g.c07polyTok(Q))
+}
+
+// ---------- multi-level polygons ("towers") ----------
+
+// A tower is a laminar family with a concentric spine of `levels` regular loops (radius of level k
+// = R*rho^k, so nesting depth up to levels-1) and optional small sibling loops (with their own
+// children / grandchildren) in the rings between consecutive spine loops.  Ring k is the region
+// between spine loop k and spine loop k+1 (ring levels-1 = the innermost disc, ring -1 = outside
+// the shell).  With rho = 0.62 and >= 6 vertices per spine loop ring k spans the radii
+// (0.62, 0.924) * r_k around the common centre (spine loops have >= 8 vertices); angular slots 0..5 at 60 degree steps.
+const c07rho = 0.62
+
+type c07tower struct {
+	f      c07frame
+	R      float64
+	levels int
+	spine  [][]s2.Point
+	sibs   map[int][][]s2.Point // ring -> loops placed at slot 0 / 2 of that ring (sibling, child, grandchild)
+}
+
+func (t *c07tower) r(k int) float64 { return t.R * math.Pow(c07rho, float64(k)) }
+
+// centre of angular slot j in ring k (k = -1: outside the shell)
+func (t *c07tower) slot(k, j int) c07frame {
+	rad := 0.84 * t.r(k) // siblings occupy the radii (0.79, 0.89) r_k; concentric B loops stay within (0.66, 0.76) r_k
+	if k < 0 {
+		rad = 1.5 * t.R
+	}
+	return c07mkFrame(t.f.at(2*math.Pi*float64(j)/6+0.1, rad))
+}
+
+func (t *c07tower) all() [][]s2.Point {
+	out := append([][]s2.Point(nil), t.spine...)
+	for k := -1; k < t.levels; k++ {
+		out = append(out, t.sibs[k]...)
+	}
+	return out
+}
+
+func (g *G) c07mkTower(f c07frame, R float64, levels int, withSibs bool) *c07tower {
+	r := g.rng
+	t := &c07tower{f: f, R: R, levels: levels, sibs: map[int][][]s2.Point{}}
+	for k := 0; k < levels; k++ {
+		n := 8 + 2*r.Intn(5) // even, >= 8 (every second vertex is still a valid inscribed loop)
+		t.spine = append(t.spine, c07regular(f, t.r(k), n, r.Float()))
+	}
+	if withSibs {
+		for k := 0; k < levels; k++ {
+			for _, j := range []int{0, 2} {
+				if r.Intn(2) == 0 {
+					continue
+				}
+				sf := t.slot(k, j)
+				rad := 0.05 * t.r(k)
+				t.sibs[k] = append(t.sibs[k], c07regular(sf, rad, 6+r.Intn(6), r.Float()))
+				if r.Bool() { // child, maybe grandchild: deeper nesting off the spine
+					t.sibs[k] = append(t.sibs[k], c07regular(sf, rad*0.4, 5+r.Intn(5), r.Float()))
+					if r.Bool() {
+						t.sibs[k] = append(t.sibs[k], c07regular(sf, rad*0.15, 4+r.Intn(4), r.Float()))
+					}
+				}
+			}
+		}
+	}
+	return t
+}
+
+const c07towerKinds = 12
+
+// c07towerB builds polygon B for tower A, ring k (-1..levels-1), placement kind.
+func (g *G) c07towerB(t *c07tower, k, kind int) [][]s2.Point {
+	r := g.rng
+	L := t.levels
+	rk := t.R * 1.6 // "ring -1": outside
+	if k >= 0 {
+		rk = t.r(k)
+	}
+	conc := func(k int, frac float64, n int) []s2.Point { // concentric loop in ring k
+		switch {
+		case k < 0:
+			return c07regular(t.f, t.R*(1.25+0.5*frac), n, r.Float())
+		case k == L-1:
+			return c07regular(t.f, t.r(k)*(0.3+0.4*frac), n, r.Float())
+		}
+		return c07regular(t.f, t.r(k)*(0.68+0.08*frac), n, r.Float())
+	}
+	switch kind {
+	case 0: // concentric loop in ring k: encloses every inner loop, boundary entirely in ring k
+		return [][]s2.Point{conc(k, 0.8, 12+r.Intn(8))}
+	case 1: // small disc in a free slot of ring k (encloses nothing)
+		return [][]s2.Point{c07regular(t.slot(k, 1), 0.08*rk, 5+r.Intn(8), r.Float())}
+	case 2: // small disc straddling the boundary of spine loop k (or k+1)
+		kk := k
+		if kk < 0 {
+			kk = 0
+		}
+		c := t.f.at(2*math.Pi*r.Float(), 0.93*t.r(kk))
+		return [][]s2.Point{c07regular(c07mkFrame(c), 0.1*t.r(kk), 5+r.Intn(8), r.Float())}
+	case 3: // annulus: outer boundary in ring k, inner boundary in ring k2 >= k
+		k2 := k + r.Intn(L-k)
+		if k2 < 0 {
+			k2 = 0
+		}
+		if k2 == k {
+			return [][]s2.Point{conc(k, 1.0, 14+r.Intn(6)), conc(k, 0.0, 14+r.Intn(6))}
+		}
+		return [][]s2.Point{conc(k, 0.5, 12+r.Intn(8)), conc(k2, 0.5, 12+r.Intn(8))}
+	case 4: // B shares whole loops with A: spine loops k..k2 (a sub-tower: same boundary, maybe opposite sides)
+		if k < 0 {
+			k = 0
+		}
+		k2 := k + r.Intn(L-k)
+		var b [][]s2.Point
+		for q := k; q <= k2; q++ {
+			b = append(b, c07rotate(t.spine[q], r.Intn(len(t.spine[q]))))
+		}
+		return b
+	case 5: // B = every second vertex of spine loop k: shares vertices only, lies in ring k
+		if k < 0 {
+			k = 0
+		}
+		var b []s2.Point
+		for i := 0; i < len(t.spine[k]); i += 2 {
+			b = append(b, t.spine[k][i])
+		}
+		return [][]s2.Point{b}
+	case 6: // B is itself a tower whose spine loops lie in rings k, k+1, ... of A (interleaved, both deep)
+		var b [][]s2.Point
+		for q := k; q < L; q++ {
+			b = append(b, conc(q, 0.5, 12+r.Intn(6)))
+			if r.Intn(4) == 0 {
+				break
+			}
+		}
+		return b
+	case 7: // around / inside a sibling of ring k (only if A has one there; else a disc at that slot)
+		if k < 0 {
+			k = 0
+		}
+		sf := t.slot(k, 0)
+		rad := []float64{0.075, 0.03, 0.012}[r.Intn(3)] * t.r(k) // around the sibling / between sibling and child / between child and grandchild
+		return [][]s2.Point{c07regular(sf, rad, 8+r.Intn(6), r.Float())}
+	case 8: // B shares a sibling loop of A (or, without siblings, the spine loop) plus a disc elsewhere
+		if k < 0 {
+			k = 0
+		}
+		if len(t.sibs[k]) > 0 {
+			return [][]s2.Point{t.sibs[k][0], c07regular(t.slot(k, 4), 0.06*t.r(k), 6, r.Float())}
+		}
+		return [][]s2.Point{t.spine[k]}
+	case 9: // several shells: discs in free slots of several rings (no holes on the B side)
+		var b [][]s2.Point
+		for q := k; q < L; q++ {
+			if q >= 0 && (q == k || r.Bool()) {
+				b = append(b, c07regular(t.slot(q, 3), 0.07*t.r(q), 5+r.Intn(6), r.Float()))
+			}
+		}
+		if len(b) == 0 {
+			b = append(b, c07regular(t.slot(k, 3), 0.07*rk, 6, r.Float()))
+		}
+		return b
+	case 10: // ring k exactly, as an annulus sharing both boundaries with A (k even: part of A; k odd: a hole of A)
+		if k < 0 {
+			k = 0
+		}
+		if k+1 < L {
+			return [][]s2.Point{t.spine[k], t.spine[k+1]}
+		}
+		return [][]s2.Point{t.spine[k]}
+	default: // annulus around ring boundaries: from ring k to ring k+2 (covers a whole hole / island ring of A)
+		if k+2 < L {
+			return [][]s2.Point{conc(k, 0.5, 12+r.Intn(8)), conc(k+2, 0.5, 12+r.Intn(8))}
+		}
+		return [][]s2.Point{conc(k, 0.5, 12+r.Intn(8))}
+	}
+}
+
+func (g *G) c07emitTower(t *c07tower, k, kind int) {
+	A := t.all()
+	B := g.c07towerB(t, k, kind)
+	for _, l := range B {
+		if len(l) < 3 {
+			return
+		}
+	}
+	if g.rng.Bool() {
+		g.emit("prel", g.c07polyTok(A), g.c07polyTok(B))
+	} else {
+		g.emit("prel", g.c07polyTok(B), g.c07polyTok(A))
+	}
+}
+
+// every (levels in {4,6}) x ring x kind once, distributed over the shards
+func (g *G) c07towerEnumeration() {
+	idx := 0
+	for _, L := range []int{4, 6} {
+		for k := -1; k < L; k++ {
+			for kind := 0; kind < c07towerKinds; kind++ {
+				idx++
+				if idx%g.shardM != g.shardK {
+					continue
+				}
+				f := c07mkFrame(g.c07center())
+				t := g.c07mkTower(f, (12+20*g.rng.Float())*c07deg, L, kind%2 == 1)
+				g.c07emitTower(t, k, kind)
+			}
+		}
+	}
+}
+
+// c07addInscribed adds, for some spine levels, the loop through every second vertex of the spine
+// loop (shares those vertices, lies between spine loop k and k+1): nesting depth up to 2*levels-1,
+// shared vertices between parent and child loops (ContainsNested wedge path, findVertex).
+func (g *G) c07addInscribed(t *c07tower) {
+	for k := 0; k < t.levels; k++ {
+		if len(t.sibs[k]) > 0 || g.rng.Bool() {
+			continue
+		}
+		var b []s2.Point
+		for i := 0; i < len(t.spine[k]); i += 2 {
+			b = append(b, t.spine[k][i])
+		}
+		t.sibs[k] = append(t.sibs[k], b)
+	}
+}
+
+func (g *G) c07genTowerRandom() {
+	r := g.rng
+	L := 1 + r.Intn(6)
+	f := c07mkFrame(g.c07center())
+	t := g.c07mkTower(f, (8+27*r.Float())*c07deg, L, r.Intn(3) != 0)
+	if r.Intn(4) == 0 {
+		g.c07addInscribed(t)
+	}
+	g.c07emitTower(t, r.Intn(L+1)-1, r.Intn(c07towerKinds))
 }
 
 var _ = fmt.Sprint
